@@ -213,7 +213,7 @@ fn run_job(j: &Job, shared: &Params) -> String {
     let mut h = sha3::Sha3_256::new();
     // the statement is rebuilt on top of (a clone of) the shared parameter object
     let st = j.case.statement_with(shared, &j.case.promises, j.case.seed);
-    match j.kind % 6 {
+    match j.kind % 7 {
         0 => {
             let mut prng = FaultRng::new(RngKind::Healthy(j.rng_seed));
             match RangeProof::prove_with_rng(&mut j.case.transcript(), &st, &j.case.witness(), &mut prng) {
@@ -241,6 +241,21 @@ fn run_job(j: &Job, shared: &Params) -> String {
                 h.update(enc(g));
             }
             drop(c);
+        },
+        6 => {
+            // the serde form: serialise, compare with the byte form, decode again
+            match bincode::serialize(&j.proof) {
+                Ok(b) => {
+                    let mut want = (j.proof.to_bytes().len() as u64).to_le_bytes().to_vec();
+                    want.extend_from_slice(&j.proof.to_bytes());
+                    h.update(if b == want { b"same".as_slice() } else { b"DIFFERENT".as_slice() });
+                    match bincode::deserialize::<Proof>(&b) {
+                        Ok(p) => h.update(p.to_bytes()),
+                        Err(e) => h.update(e.to_string().as_bytes()),
+                    }
+                },
+                Err(e) => h.update(e.to_string().as_bytes()),
+            }
         },
         _ => {
             // a tampered proof must be rejected, concurrently too
@@ -270,7 +285,7 @@ fn threads(ctx: &Ctx, rep: &mut Report) {
         let cap = 4;
         let shared = params_uncached(n, cap, ext);
         // jobs over the shared parameters
-        let njobs = if tsan { 12 } else { 24 };
+        let njobs = if tsan { 14 } else { 28 };
         let mut jobs = vec![];
         for k in 0..njobs {
             let m = [1usize, 2, 4, 1][k % 4];
@@ -351,8 +366,8 @@ fn threads(ctx: &Ctx, rep: &mut Report) {
                     mismatches += 1;
                     if mismatches == 1 {
                         rep.violation(
-                            &format!("C18 concurrent-result-differs [{}]", ["prove", "VerifyOnly", "RecoverAndVerify", "RecoverOnly", "clone-params", "tampered"][jobs[*ji].kind % 6]),
-                            &format!("with {t} threads sharing one parameter object, a call returned a result different from the sequential baseline (job kind {}){}", jobs[*ji].kind % 6, if d.starts_with("PANIC") { format!(": {d}") } else { String::new() }),
+                            &format!("C18 concurrent-result-differs [{}]", ["prove", "VerifyOnly", "RecoverAndVerify", "RecoverOnly", "clone-params", "tampered", "serde"][jobs[*ji].kind % 7]),
+                            &format!("with {t} threads sharing one parameter object, a call returned a result different from the sequential baseline (job kind {}){}", jobs[*ji].kind % 7, if d.starts_with("PANIC") { format!(": {d}") } else { String::new() }),
                             replay.clone(),
                         );
                     }
@@ -360,11 +375,44 @@ fn threads(ctx: &Ctx, rep: &mut Report) {
             }
         }
         rep.count("concurrent_result_mismatches", mismatches);
+        // a parameter object nobody has used yet: every thread's first call over (a clone of) it races the others'
+        // first calls - whatever the object builds lazily on first use is built under contention
+        {
+            let fresh = params_uncached(n, cap, ext);
+            let first_barrier = Arc::new(Barrier::new(t));
+            let firsts: Vec<Vec<(usize, String)>> = std::thread::scope(|s| {
+                let hs: Vec<_> = (0..t)
+                    .map(|ti| {
+                        let jobs = &jobs;
+                        let fresh = &fresh;
+                        let b = first_barrier.clone();
+                        s.spawn(move || {
+                            let mine = if ti % 2 == 0 { fresh.clone() } else { fresh.clone().clone() };
+                            b.wait();
+                            (0..jobs.len().min(6)).map(|k| { let ji = (ti + k * 5) % jobs.len(); (ji, no_panic(|| run_job(&jobs[ji], &mine)).unwrap_or_else(|p| format!("PANIC: {p}"))) }).collect()
+                        })
+                    })
+                    .collect();
+                hs.into_iter().map(|h| h.join().expect("worker thread")).collect()
+            });
+            rep.count("racing_first_uses_of_a_parameter_object", t as u64);
+            for (ji, d) in firsts.iter().flatten() {
+                rep.count("concurrent_results_compared", 1);
+                if *d != baseline[*ji] {
+                    rep.violation(
+                        "C18 concurrent-result-differs [first use of a fresh parameter object]",
+                        &format!("{t} threads made their first calls over clones of a parameter object nobody had used before; a call returned a result different from the sequential baseline{}", if d.starts_with("PANIC") { format!(": {d}") } else { String::new() }),
+                        replay.clone(),
+                    );
+                    break;
+                }
+            }
+        }
         // how much did the calls actually overlap?
         let mut all: Vec<(usize, usize, u64, u64)> = vec![];
         for (ti, sp) in spans.iter().enumerate() {
             for (ji, a, b, _) in sp {
-                all.push((ti, jobs[*ji].kind % 6, *a, *b));
+                all.push((ti, jobs[*ji].kind % 7, *a, *b));
             }
         }
         let mut pairs: std::collections::BTreeSet<(usize, usize)> = std::collections::BTreeSet::new();
